@@ -114,6 +114,12 @@ def one_statement_kernels(kind, mn, n, binding):
         call = f"{mn}.{n}({', '.join(consts + [f'{an}={lit}' for an, lit in req])})"
         body = f"    r = {call}\n    return r\n" if has_result else f"    {call}\n"
         out.append(("constant operands, result used", f"@{kind}\ndef main():\n{body}"))
+        if any(c in ("CONST_GRID", "CONST_FILLED") for c in consts):
+            # the same with every grid operand a VIEW of a filled grid held as a constant of the kernel
+            alt = [{"CONST_GRID": "CONST_FILLED_VIEW", "CONST_FILLED": "CONST_FILLED_VIEW"}.get(c, c) for c in consts]
+            call = f"{mn}.{n}({', '.join(alt + [f'{an}={lit}' for an, lit in req])})"
+            body = f"    r = {call}\n    return r\n" if has_result else f"    {call}\n"
+            out.append(("constant operands (views of a filled grid), result used", f"@{kind}\ndef main():\n{body}"))
     return out
 
 
@@ -129,7 +135,7 @@ def const_ns():
     from kirin.dialects import ilist
     g = Grid.from_positions([0.0, 1.0, 2.5], [0.0, 2.0])
     from kirin import types
-    return {"CONST_GRID": g, "CONST_FILLED": FilledGrid.vacate(g, [(0, 0)]),
+    return {"CONST_GRID": g, "CONST_FILLED": FilledGrid.vacate(g, [(0, 0)]), "CONST_FILLED_VIEW": FilledGrid.vacate(g, [(0, 0), (1, 1)])[0:2, 0:2],
             "CONST_SITES": ilist.IList([(0, 1), (2, 0)], elem=types.Tuple[types.Int, types.Int]),
             "CONST_INTS": ilist.IList([0, 1], elem=types.Int), "CONST_FLOATS": ilist.IList([0.0, 1.5], elem=types.Float)}
 
@@ -221,6 +227,26 @@ def arch_spec_option(ctx, ws, wcat):
                 else:
                     ctx.nt(("device-call", ka, kb, dec, kw))
     ctx.count("move kernels calling a device function with every mix of known / unknown operands x decorator options", m)
+    # move kernels whose ONLY scheduling vocabulary is the call of a device function they got from outside (a parameter, forward or
+    # reversed, or the result of a helper kernel), next to other accepted vocabulary
+    outside = {"parameter annotated schedule.DeviceFunction": ("f: schedule.DeviceFunction, x: float", "    f(x, 2.0)\n"),
+               "parameter annotated schedule.ReverseDeviceFunction": ("f: schedule.ReverseDeviceFunction, x: float", "    f(x, 2.0)\n"),
+               "result of a helper kernel": ("x: float", "    f = make_dev()\n    f(x, 2.0)\n"),
+               "parameter, next to a gate and a lookup": ("f: schedule.DeviceFunction, x: float", "    z = spec.get_static_trap(zone_id=\"traps\")\n    gate.top_hat_cz(z)\n    f(x, 2.0)\n"),
+               "parameter, called twice with keywords": ("f: schedule.DeviceFunction, x: float", "    f(b=x, a=2.0)\n    f(a=x, b=x)\n")}
+    helper = ("@tweezer\ndef kk(a: float, b: float):\n    action.set_loc(grid.from_positions([a], [b]))\n\n"
+              "@move\ndef make_dev():\n    return schedule.device_fn(kk, [0], [0])\n\n")
+    for label, (sig, body) in outside.items():
+        for dec in ("", "(fold=False)", "(arch_spec=SPEC)"):
+            src = helper + f"@move{dec}\ndef main({sig}):\n{body}"
+            got, why = try_define(src, SPEC=SP)
+            ctx.evaluations += 1
+            if got != "accepted":
+                ctx.fail({"wrapper": "call of a device function from outside", "kind": "move", "got": got, "documented": "accept", "option": dec, "case": label},
+                         {"src": src, "expected": "accepted", "option_spec": "name known under every kind"},
+                         f"@move{dec} {got} a move kernel that plays a device function it received from outside ({label}): {why}")
+            else:
+                ctx.nt(("device-function-from-outside", label, dec))
 
 
 def run(ctx):
@@ -276,7 +302,7 @@ def run(ctx):
                     # @tweezer does not verify types: a TypeCheckError from it is a refusal of the statement
                     if got == "rejected" and want and in_group and why.startswith("TypeCheckError") and kind != "tweezer" and (
                             form == "required arguments only" or form.startswith("only operand") or form.startswith("all but operand")
-                            or form == "constant operands, result used"):
+                            or form.startswith("constant operands")):
                         ctx.hist("outcome", "acceptance side not exercised (argument synthesis)")
                         ctx.extra.setdefault("acceptance_not_exercised", []).append(f"{kind}: {mn}.{n}: {why}")
                         continue
